@@ -186,6 +186,8 @@ pub fn variable_assign(var_assgn: &VariableAssign, env: Option<&Environment>, p:
   };
   match &slc.subscript {
     Some(sbscrpt) => {
+      // The value assigned through a subscript is the source's value, whether it is written as a literal or held by a variable.
+      let source = detach_variable_value(&source);
       #[cfg(feature = "subscript")]
       for s in sbscrpt {
         let s_result = subscript_ref(&s, &sink, &source, env, p)?;
